@@ -6,6 +6,6 @@ PATCH=$(realpath "$1"); shift
 git -C /var/tmp/mutrepo checkout -q -- . && git -C /var/tmp/mutrepo checkout -q --detach $(git -C /repo rev-parse HEAD) && git -C /var/tmp/mutrepo apply "$PATCH" || { echo "patch does not apply"; exit 3; }
 export VERIF_REPO=/var/tmp/mutrepo VERIF_CACHE=/var/tmp/mutcache VERIF_EVIDENCE_DIR=/var/tmp/mutcache/evidence
 for p in "$@"; do
-  echo "== $p"; /verif/bin/check "$p" 2>/dev/null | grep -v '^\[' | head -8; echo "rc=$?"
+  echo "== $p"; /verif/bin/check "$p" 2>/dev/null | grep -E "^(VIOLATION|OK|ERROR)" | head -6
 done
 git -C /var/tmp/mutrepo checkout -q -- .
